@@ -39,7 +39,9 @@ def target(ref):
 
 def m_rc_new(ex, a, t): return RcPtr(RcBox(a[0]))
 def m_rc_clone(ex, a, t):
-    p = target(a[0]); p.box.strong += 1; return RcPtr(p.box)
+    p = target(a[0])
+    if not isinstance(p, RcPtr): return p          # an opaque shared value (e.g. a TLS configuration): sharing is all that matters
+    p.box.strong += 1; return RcPtr(p.box)
 def m_rc_deref(ex, a, t): return Ref(LCell(target(a[0]).box.value))
 def m_rc_strong(ex, a, t): return z3.BitVecVal(target(a[0]).box.strong, 64)
 def m_refcell_new(ex, a, t): return RefCellObj(a[0])
@@ -118,6 +120,7 @@ MODELS = [
     (r'(?:^|::)core::slice::<impl \[.*\]>::iter$', m_slice_iter), (r'as Iterator>::any::<', m_iter_any),
 ]
 
+from mirsym import ENUM_ALT
 def parse_layouts(paths):
     structs, enums = {}, {}
     for p in paths:
@@ -135,6 +138,9 @@ def parse_layouts(paths):
                 part = re.sub(r'#\[[^\]]*\]\s*', '', part).strip()
                 mm = re.match(r'(\w+)', part)
                 if mm: vs.append(mm.group(1))
+            if m.group(1) in enums and enums[m.group(1)] != vs:
+                # two enums of the same name in different modules: keep every variant list (looked up by variant)
+                ENUM_ALT.setdefault(m.group(1), [enums[m.group(1)]]).append(vs)
             enums[m.group(1)] = vs
     return structs, enums
 
